@@ -35,7 +35,7 @@ P = 'circus.process:Process.'
 
 
 def check(run, ctx):
-    run.each(ctx, [r1, r2, r3, r4, r5, r6, r7, r8, r9, r10, r11, r12, r13])
+    run.each(ctx, [r1, r2, r3, r4, r5, r6, r7, r8, r9, r10, r11, r12, r13, r14])
 
 
 def r10(run, ctx):
@@ -578,3 +578,12 @@ def r13(run, ctx):
     run.share(ctx, c09.r2, 'R2', 'R13', 'reap_process untracks a worker only when it has '
               'collected it (shared with C09 R2): a way out between the removal of the pid and '
               'the reap event leaves a live child in no table')
+
+
+def r14(run, ctx):
+    from rules import c14
+    run.share(ctx, c14.r4, 'R4', 'R14', 'the last-resort SIGKILL cannot be vetoed (shared with '
+              'C14 R4, the truth table of the signal gate): every path that forgets a live worker '
+              'relies on kill_process reporting completion only for a worker that is really gone - '
+              'a before_signal hook that can hold back SIGKILL leaves a running child in no table',
+              keep=lambda key: 'signal gate truth table' in key or 'SIGKILL compared' in key)
